@@ -68,6 +68,34 @@ def case(args):
         sc.close()
 
 
+def interrupted_case(args):
+    """outputs left by an interrupted run: kill right after a rename of FinalizePaths, run again in place (without cleaning):
+    whatever the re-run does (it refuses), the files that were final keep inode, mtime and bytes"""
+    seed, i = args
+    rng = random.Random(seed * 15485867 + i)
+    sp = t3.gen_workflow(rng, maxlen=3, multi_out=True, nproc=rng.randint(1, 3))
+    model = t3.run_model(sp.text())
+    if model["status"] != "done" or model["failed"] or not model["tasks"]:
+        return None
+    declared = {o[2] for t in model["tasks"] for o in t["outs"] if not o[1]}
+    sc = t3.Scratch()
+    try:
+        sc.plant(sp.files)
+        k = rng.randint(1, max(1, len(declared)))
+        r1 = t3.run_impl(sc, sp, crash="%s:%d" % (rng.choice(["fin.after_rename", "fin.before_removeall", "exec.after_finalize"]), k), timeout=60)
+        before = {p: (v[2], v[3], v[1]) for p, v in r1["fs"].items() if v[0] == "f" and p in declared}
+        r2 = t3.run_impl(sc, sp, timeout=60)
+        after = {p: (v[2], v[3], v[1]) for p, v in r2["fs"].items() if v[0] == "f" and p in declared}
+        problems = []
+        for p, st in before.items():
+            if after.get(p) != st:
+                problems.append(("existing-output-modified", "output %r, finalized before the run was interrupted, changed (inode, mtime, bytes) when the workflow was run again: %s -> %s" % (p, st[:2], (after.get(p) or (None, None))[:2])))
+        return {"spec": sp.text(), "bufsize": sp.bufsize, "problems": problems[:3], "ntasks": len(model["tasks"]), "nskip": len(before), "rc": r2["rc"], "stderr": r2["stderr"][-200:],
+                "yield": None, "wall": r2["wall"], "gofunc": 0}
+    finally:
+        sc.close()
+
+
 def run(rep, tier, seed):
     proved = vlib.prove(rep, MODULE, THEOREMS)
     ok, msg = vlib.build_ocaml()
@@ -75,6 +103,7 @@ def run(rep, tier, seed):
         raise RuntimeError("extraction/driver build failed: " + msg[-1500:])
     n = 100 if tier == "quick" else 2000
     results = [r for r in t3.run_many(case, [(seed, i) for i in range(n)]) if r]
+    results += [r for r in t3.run_many(interrupted_case, [(seed, i) for i in range(n // 4)]) if r]
     t3.report_t3(rep, MODULE, proved, results, "T3 planted outputs / re-run")
     rep.cov["evaluations"] = len(results) * 2
     rep.cov["distinct_nontrivial"] = len({r["spec"] for r in results if r["nskip"] >= 1})
